@@ -19,9 +19,8 @@ var findings = []kit.Finding[Case]{
 		Desc:   "a based-on cycle (self-loop, A<->B, longer) makes GetStyleWithInheritance / ApplyStyleToXML recurse without bound: fatal error: stack overflow kills the process",
 		// input class: some queried id whose based-on chain comes back to a style already passed
 		Trigger: func(c Case, f kit.Failure) bool {
-			var reg registry
-			var err error
-			if p, _ := kit.Try(func() { _, reg, err = setup(c) }); p != nil || err != nil {
+			reg := modelOf(c)
+			if reg == nil {
 				return false
 			}
 			return reachesCycle(c, reg)
@@ -41,9 +40,8 @@ var findings = []kit.Finding[Case]{
 			if _, err := fmt.Sscanf(f.Detail, "[q=%d ", &qi); err != nil || qi < 0 || qi >= len(c.Queries) {
 				return false
 			}
-			var reg registry
-			var err error
-			if p, _ := kit.Try(func() { _, reg, err = setup(c) }); p != nil || err != nil {
+			reg := modelOf(c)
+			if reg == nil {
 				return false
 			}
 			want := reg.resolve(c.Queries[qi])
